@@ -254,7 +254,8 @@ class SymListT(Spec):
 
 
 class SymObjListT(Spec):
-    """list of symbolic length of objects of a class with the given (scalar) fields"""
+    """list of symbolic length of objects of a class; fields are scalars (str / int / bool), objects or tuples of
+    those (nested).  Every scalar leaf `a.b.0` is one uninterpreted function of the element index."""
 
     def __init__(self, cls_path, **fields):
         self.cls_path = cls_path
@@ -266,13 +267,52 @@ class SymObjListT(Spec):
         n = z3.Int(name + '.len')
         I.st.assume(n >= 0)
         funcs = {}
-        for f, spec in self.fields.items():
-            sort = {'str': z3.StringSort(), 'int': z3.IntSort(), 'bool': z3.BoolSort()}[spec.label.split('(')[0]]
-            funcs[f] = (z3.Function(f"{name}.{f}", z3.IntSort(), sort), spec.label.split('(')[0])
-        return V.SymList(name, n, ObjT(self.cls_path).resolve(), funcs)
+        facts = []
+
+        def shape_of(spec, path):
+            if isinstance(spec, ObjT):
+                return ('obj', spec.resolve(), {f: shape_of(sp, path + [f]) for f, sp in spec.fields.items()})
+            if isinstance(spec, TupleT):
+                return ('tuple', [shape_of(sp, path + [str(i)]) for i, sp in enumerate(spec.items)])
+            if isinstance(spec, ConstT):
+                return ('const', spec.value)
+            if isinstance(spec, NoneT):
+                return ('const', None)
+            kind = spec.label.split('(')[0]
+            if kind not in ('str', 'int', 'bool'):
+                raise ValueError(f"element field {'.'.join(path)}: kind {spec.label} is not supported in lists of symbolic length")
+            sort = {'str': z3.StringSort(), 'int': z3.IntSort(), 'bool': z3.BoolSort()}[kind]
+            key = '.'.join(path)
+            funcs[key] = (z3.Function(f"{name}.{key}", z3.IntSort(), sort), kind)
+            if isinstance(spec, IntT) and (spec.lo is not None or spec.hi is not None):
+                facts.append((key, spec.lo, spec.hi))
+            return ('leaf', key, kind)
+        shape = ('obj', ObjT(self.cls_path).resolve(), {f: shape_of(sp, [f]) for f, sp in self.fields.items()})
+        L = V.SymList(name, n, ObjT(self.cls_path).resolve(), funcs)
+        L.shape = shape
+        L.bounds = facts          # (leaf, lo, hi): instantiated for every element that is looked at
+        return L
 
     def accepts(self, v):
         return isinstance(v, _v().SymList)
+
+
+class SymStrListT(Spec):
+    """list of symbolic length of strings"""
+    label = 'list[n] of str'
+
+    def make(self, I, name):
+        V, z3 = _v(), _z3()
+        n = z3.Int(name + '.len')
+        I.st.assume(n >= 0)
+        funcs = {'value': (z3.Function(f"{name}.value", z3.IntSort(), z3.StringSort()), 'str')}
+        L = V.SymList(name, n, str, funcs)
+        L.shape = ('leaf', 'value', 'str')
+        return L
+
+    def accepts(self, v):
+        V = _v()
+        return isinstance(v, V.SymList) and v.shape[0] == 'leaf'
 
 
 class SameAsT(Spec):
@@ -344,6 +384,7 @@ class T:
     custom = CustomT
     lock = LockT()
     symobjlist = SymObjListT
+    symstrlist = SymStrListT()
     same_as = SameAsT
     derived = DerivedT
     symcoll = SymCollT
